@@ -34,6 +34,7 @@ ResetVars ==
   /\ fc' = [i \in ReqIds |-> [kind |-> "none", for |-> 0]]
   /\ pool' = <<>> /\ nfc' = 0
   /\ cstate' = "open" /\ cpc' = "run"
+  /\ fdir' = [f \in Fids |-> f \in InitFids]
   /\ cancelled' = {} /\ badcall' = FALSE /\ crashed' = FALSE
   /\ destroyed' = [f \in Fids |-> 0]
   /\ creator' = [f \in Fids |-> 0]
@@ -93,6 +94,8 @@ Reject ==
   /\ l <= Len(Trace) /\ ~failed /\ Line.act # "Reset"
   /\ ~ENABLED Matched /\ ~ENABLED SilentStep
   /\ PrintT(<<"REJECT", case, l, Line.act, Line.args>>)
+  /\ PrintT("REJECT-STATE " \o ToString(<<case, l>>) \o ToString([wpc |-> wpc, impl |-> impl, spc |-> spc, scur |-> scur, extra |-> extra,
+                                        wire |-> [k \in 1..Len(wire) |-> wire[k].req], parked |-> AlphaParked]))
   /\ failed' = TRUE /\ l' = l + 1 /\ UNCHANGED <<vars, case, done>>
 
 SkipStep ==
